@@ -1,5 +1,6 @@
 /- C36 — property theorems (proved ones) and the goals left to the exhaustive tie (`*_goal : Prop`). -/
 import TornadoModel.C36.LemmasTimeout
+import TornadoModel.C36.InvWait
 namespace TornadoModel.C36
 
 /-! ### chain_future -/
@@ -98,21 +99,79 @@ example : (Multi.callback 0 ⟨[some (.result 1)], [0], [0], [0], none, 0, []⟩
 theorem multi_out_stable (s : Multi.S) (ops : List Multi.Op) (x : Multi.MOut) (h : s.out = some x) :
     (Multi.run s ops).out = some x := Multi.out_stable_run ops s x h
 
-/-- goals decided by the exhaustive tie only (≤ 4 inputs × 3 outcomes × all orders × already-done × tick placements) -/
-def multi_settles_goal : Prop :=
+/-- for every children list (duplicates, out-of-range indices), every initial state and every schedule: once all
+    children are done and the loop is idle the output holds exactly the specified outcome — the results in input
+    order, or the exception of the first child in order that failed (cancelled = CancelledError).
+    (Reachability invariant `Multi.Inv`: `unfinished_children` shrinks exactly by the children whose callback
+    ran; a pending child is listened to; a done unfinished child has its callback in the ready queue.) -/
+theorem multi_outcome :
   ∀ (st : List FState) (ch : List Nat) (ops : List Multi.Op), (∀ f ∈ ch, f < st.length) →
     let s := Multi.run (Multi.init st ch) ops
-    (∀ f ∈ ch, get s.st f ≠ none) → s.ready = [] → s.out ≠ none
+    (∀ f ∈ ch, get s.st f ≠ none) → s.ready = [] → s.out = some (Spec.multi (ch.filterMap (get s.st))) := by
+  intro st ch ops _ s hd hr
+  exact Multi.run_outcome st ch ops hd hr
 
-def multi_outcome_goal : Prop :=
-  ∀ (st : List FState) (ch : List Nat) (ops : List Multi.Op), (∀ f ∈ ch, f < st.length) →
-    let s := Multi.run (Multi.init st ch) ops
-    (∀ f ∈ ch, get s.st f ≠ none) → s.ready = [] → s.out = some (Spec.multi (ch.filterMap (get s.st)))
+example : (∀ f ∈ [0, 1, 0], f < [some (Outcome.result 5), none].length) ∧
+    (let s := Multi.run (Multi.init [some (.result 5), none] [0, 1, 0]) [.soon 1 .cancelled, .tick, .tick]
+     (∀ f ∈ [0, 1, 0], get s.st f ≠ none) ∧ s.ready = [] ∧ s.out = some (.exc cancelledErr)) := by decide
 
-def multi_not_early_goal : Prop :=
+/-- never left pending: all children done and the loop idle ⇒ the output is settled -/
+theorem multi_settles :
   ∀ (st : List FState) (ch : List Nat) (ops : List Multi.Op), (∀ f ∈ ch, f < st.length) →
     let s := Multi.run (Multi.init st ch) ops
-    s.out ≠ none → ∀ f ∈ ch, get s.st f ≠ none
+    (∀ f ∈ ch, get s.st f ≠ none) → s.ready = [] → s.out ≠ none := by
+  intro st ch ops hlt s hd hr
+  have := multi_outcome st ch ops hlt hd hr
+  simp only [s] at this ⊢
+  rw [this]; simp
+
+example : (let s := Multi.run (Multi.init [none, none] [0, 1]) [.set 1 (.result 2), .set 0 (.result 1), .tick]
+    (∀ f ∈ [0, 1], get s.st f ≠ none) ∧ s.ready = [] ∧ s.out = some (.vals [1, 2])) := by decide
+
+/-- never settled early: whenever the output is settled, every child is done (at construction or later) -/
+theorem multi_not_early :
+  ∀ (st : List FState) (ch : List Nat) (ops : List Multi.Op), (∀ f ∈ ch, f < st.length) →
+    let s := Multi.run (Multi.init st ch) ops
+    s.out ≠ none → ∀ f ∈ ch, get s.st f ≠ none := by
+  intro st ch ops _ s ho
+  obtain ⟨hinv, hch⟩ := Multi.reach st ch ops
+  cases hx : s.out with
+  | none => exact absurd hx ho
+  | some x =>
+    have := (hinv.v x hx).1
+    rw [hch] at this
+    exact this
+
+example : (Multi.run (Multi.init [none, none] [0, 1]) [.set 0 (.exc 7), .tick]).out = none ∧
+    (Multi.run (Multi.init [none, none] [0, 1]) [.set 0 (.exc 7), .tick, .set 1 (.result 1), .tick]).out
+      = some (.exc 7) := by decide
+
+/-- the settled output is the specified one at every moment of every schedule (not only when the loop is idle) -/
+theorem multi_out_correct (st : List FState) (ch : List Nat) (ops : List Multi.Op) (x : Multi.MOut) :
+    let s := Multi.run (Multi.init st ch) ops
+    s.out = some x → x = Spec.multi (ch.filterMap (get s.st)) := by
+  intro s hx
+  obtain ⟨hinv, hch⟩ := Multi.reach st ch ops
+  have := (hinv.v x hx).2
+  rw [hch] at this
+  exact this
+
+/-- the loop always drains: whatever is queued, after two iterations nothing is ready (a callback schedules
+    nothing, a `call_soon`ed settle only schedules callbacks) … -/
+theorem multi_drains (s : Multi.S) : (Multi.run s [.tick, .tick]).ready = [] := Multi.tick_tick_idle s
+
+/-- … hence `multi` is never pending for ever: from any reachable state in which all children are done, two loop
+    iterations later the output is settled with the specified outcome -/
+theorem multi_never_pending (st : List FState) (ch : List Nat) (ops : List Multi.Op) :
+    let s := Multi.run (Multi.init st ch) ops
+    (∀ f ∈ ch, get s.st f ≠ none) →
+      (Multi.run s [.tick, .tick]).out = some (Spec.multi (ch.filterMap (get s.st))) := by
+  intro s hd
+  exact Multi.never_pending_aux st ch ops hd
+
+example : (let s := Multi.run (Multi.init [none, none] [0, 1, 1]) [.soon 0 (.result 4), .set 1 (.result 9), .tick]
+    (∀ f ∈ [0, 1, 1], get s.st f ≠ none) ∧ s.out = none ∧
+      (Multi.run s [.tick, .tick]).out = some (.vals [4, 9, 9])) := by decide
 
 /-! ### with_timeout -/
 
